@@ -60,6 +60,32 @@ func setup(thorough bool) {
 	}
 	alpha = gen.NewAlphabet()
 	universe = append(universe, errorType) // error values as top-level values (the message is a string item)
+	universe = append(universe, withErrType, reflect.PtrTo(errorType))
+}
+
+// withErrType: a struct with a field of type error, which is nil in ordinary use
+var withErrType = reflect.TypeOf(struct {
+	V    int
+	Err  error
+	Note string
+}{})
+
+func withErrVals() []reflect.Value {
+	mk := func(v int, e error, n string) reflect.Value {
+		x := reflect.New(withErrType).Elem()
+		x.Field(0).SetInt(int64(v))
+		if e != nil {
+			x.Field(1).Set(reflect.ValueOf(e))
+		}
+		x.Field(2).SetString(n)
+		return x
+	}
+	return []reflect.Value{mk(1, nil, "done"), mk(0, nil, ""), mk(2, nil, "ab")}
+}
+
+func errPtrVals() []reflect.Value {
+	var nilErr error
+	return []reflect.Value{reflect.ValueOf(&nilErr), reflect.Zero(reflect.PtrTo(errorType))}
 }
 
 var errorType = reflect.TypeOf((*error)(nil)).Elem()
@@ -97,6 +123,10 @@ func runType(ti int) result {
 	var vs []reflect.Value
 	if t == errorType {
 		vs = errorVals()
+	} else if t == withErrType {
+		vs = withErrVals()
+	} else if t == reflect.PtrTo(errorType) {
+		vs = errPtrVals()
 	} else {
 		vs = alpha.Vals(t, width)
 	}
